@@ -223,12 +223,9 @@ pub fn query_vars(
     let mut client = GameSpy3::new(address, timeout_settings)?;
     let packets = client.get_server_packets()?;
 
-    let mut vars = HashMap::new();
-
-    for packet in &packets {
-        let (key_values, _remaining_data) = data_to_map(packet)?;
-        vars.extend(key_values);
-    }
+    // As in `query`: the key/value block is in the first packet, what follows it (and the
+    // other packets) are player and team field sections, not key/value pairs.
+    let (vars, _remaining_data) = data_to_map(packets.first().ok_or(GDErrorKind::PacketBad)?)?;
 
     Ok(vars)
 }
